@@ -1,7 +1,7 @@
 (* C06 model: base/bslice/{bslice,any,comparable,ordered,calculable}.go on the slice memory model
    (with the repairs of D9, D10, D11 and N1, N2, N4 applied: DeleteTo* run Delete on a Clone, GetByRangeE returns
    the copy, SetByRangeE overwrites/extends from the (clamped) index, the Delete family validates the
-   range before its empty-receiver shortcut, GrowE recovers the runtime's refusal to allocate). A method call is
+   range before its empty-receiver shortcut, Unmarshal clips the receiver before decoding (N5), GrowE recovers the runtime's refusal to allocate). A method call is
        bs_call m oc h s : res
    on a heap h and the receiver's header s (field x.e); oc is the capacity oracle handed to every
    append/grow that has to allocate. The outcome is the new heap, the new receiver header, the
@@ -257,12 +257,14 @@ Definition bs_call (m : meth) (oc : nat) (h : heap) (s : slice) : res :=
                     ok (wstore h1 cp 0 (reverse_loop (contents h1 cp))) s (VSlice cp)
   | MMarshal => ok h s (VList c)                      (* nil and empty both encode as [] *)
   | MUnmarshal d =>
-      (* if x.e == nil { x.e = []E{} } *)
-      let '(h0, s0) := if isnil s then new_empty h else (h, s) in
+      (* if x.e == nil { x.e = []E{} };  x.e = x.e[:len(x.e):len(x.e)] (N5: decode into nothing but the contents) *)
+      let '(h0, s1) := if isnil s then new_empty h else (h, s) in
+      let s0 := prim_clip s1 in
       match d with
       | JBad => Ok h0 s0 VNone true                   (* checkValid fails before anything is stored *)
       | JNull => ok h0 nil_slice VNone
-      | JArr l => let '(h1, s1) := unmarshal_arr h0 s0 l oc in ok h1 s1 VNone
+      | JArr l => let '(h1, s2) := unmarshal_arr h0 s0 l oc in ok h1 s2 VNone
+      | JDocs ds => let '(h1, s2) := unmarshal_arr h0 s0 (merge_all (contents h0 s0) ds) oc in ok h1 s2 VNone
       end
   | MLen => ok h s (VInt (zlen s))
   | MCap => ok h s (VInt (zcap s))
